@@ -1,6 +1,6 @@
 (* Codec/Spec.v — RFC 9639 validity of a syntax tree beyond what the round trip needs, and the
    strict reference decoder  spec_decode = parse ; check wf ; check valid ; semantics. *)
-From FlacCodec Require Export Wf.
+From FlacCodec Require Export Wf Stream.
 Open Scope N_scope.
 
 (* residual coding: the block size must be evenly divisible by the number of partitions, and
@@ -36,3 +36,40 @@ Definition spec_frame (f : frame) : bool :=
 Definition spec_decode (si : option streaminfo) (bytes : list N) : res (list (list Z) * list N) :=
   '(f, rest) <- struct_frame si bytes ;;
   if wf_frame si f && spec_frame f then Ok (sem_frame f, rest) else Err EOther.
+
+(* ---- whole streams: the strict stream-level validator used for C02 ----
+   fLaC tag and STREAMINFO first (read_metadata_min), then frames until the bytes run out; each frame
+   must parse (valid CRCs, header consistent with STREAMINFO), be well-formed and RFC-valid, re-serialise
+   to the very bytes it was parsed from (zero padding, minimal number coding), use the fixed-blocksize
+   strategy with frame numbers 0,1,2,..., and every frame but the last must have the advertised block
+   size; the total must match STREAMINFO when it is known. *)
+Fixpoint spec_frames (fuel : nat) (si : streaminfo) (number : N) (bytes : list N) (acc : list (list (list Z)))
+  : res (list (list (list Z))) :=
+  match fuel with
+  | O => Err EOther
+  | S fu =>
+    match bytes with
+    | [] => Ok (rev acc)
+    | _ =>
+      '(f, rest) <- struct_frame (Some si) bytes ;;
+      let h := f_hdr f in
+      if negb (wf_frame (Some si) f && spec_frame f) then Err EOther
+      else if negb (match write_frame f with
+                    | Some b => (length b + length rest =? length bytes)%nat &&
+                                forallb (fun p => fst p =? snd p) (combine b bytes)
+                    | None => false end) then Err EOther
+      else if h_variable h then Err EOther
+      else if negb (h_number h =? number) then Err EFrameNumber
+      else if negb ((h_bs h =? si_max_bs si) || match rest with [] => h_bs h <=? si_max_bs si | _ => false end) then Err EBlockSize
+      else spec_frames fu si (number + 1) rest (sem_frame f :: acc)
+    end
+  end.
+
+Definition spec_stream (file : list N) : res (streaminfo * list (list (list Z))) :=
+  match read_metadata_min file with
+  | None => Err EOther
+  | Some (si, audio) =>
+      frames <- spec_frames (S (length audio)) si 0 audio [] ;;
+      let total := fold_left (fun a fr => a + match fr with c :: _ => N.of_nat (length c) | [] => 0 end) frames 0 in
+      if (si_total si =? 0) || (si_total si =? total) then Ok (si, frames) else Err ETooManySamples
+  end.
